@@ -71,6 +71,9 @@ DESIGNED = [
     Add(Mul(C(1e16), x), x, Mul(C(-1e16), x), Mul(C(0.1), y), Mul(C(0.2), y), Mul(C(0.3), y), Mul(C(-0.6), y)),
     Add(Mul(C(1e16), x, y), Mul(y, x), Mul(C(-1e16), y, x), Mul(C(1e16), x, z), Mul(x, z), Mul(C(-1e16), z, x)),
     Minus(Add(Mul(C(3e15), NPow(x, 2)), Mul(C(0.1), x), Mul(C(0.7), x)), Add(Mul(C(3e15), NPow(x, 2)), Mul(C(0.3), x), y)),
+    # the same product / sum (in shared-object builds: the same object) standing more than once inside one product / sum
+    Mul(Mul(x, y), Mul(x, y), z), Mul(Mul(x, y), z, Mul(x, y)), Add(Add(x, y), Add(x, y), z), Mul(Add(x, w), Mul(y, z), Add(x, w), Mul(y, z)),
+    Add(Mul(x, y), NPow(Mul(x, y), 2), Mul(Mul(x, y), z)),
     # products whose derivative (wrt the first factor) is a sum / product that the consolidation rules regroup by key
     Mul(x, Add(Log(y), Log(z), Log(y, 2), Log(z, 2), Log(w, 10), Log(y, 10), Log(w))),
     Mul(x, Mul(NPow(y, 2), NPow(z, 3), NPow(w, 2), NPow(y, 3), NPow(z, 5), NPow(w, 5))),
@@ -161,6 +164,18 @@ def item_digests(terms, coord_perm=None, creation_order=None, after_failed_reque
             except Exception as ex:  # noqa: BLE001
                 obs.append(("repr.LocatedDifferential", type(ex).__name__))
         out.append(hashlib.sha256(json.dumps(obs).encode()).hexdigest()[:16])
+    # one more item: an expression deeper than the interpreter's recursion limit (x + x + ... 1200 terms): the outcome
+    # class of every route (RecursionError on the pinned tree) must not depend on the configuration either
+    X = smx.Variable("x")
+    deep = X
+    for _ in range(1200):
+        deep = deep + X
+    obs = []
+    for label, thunk in (("at", lambda: deep.at(Point(x=0.5))), ("P.late", lambda: Partial(deep, "x").at(Point(x=0.5))),
+                         ("LD", lambda: LocatedDifferential(deep, Point(x=0.5)).component("x"))):
+        o = A.outcome(thunk)
+        obs.append((label,) + tuple(str(u) for u in o[:2]))
+    out.append(hashlib.sha256(json.dumps(obs).encode()).hexdigest()[:16])
     return out
 
 
@@ -397,9 +412,13 @@ def run_c18(tier, seed):
             bad = bad or [0]
         if bad:
             i = bad[0]
-            st.violation({"why": f"configuration {label}: {len(bad)} battery items give different results than the "
-                                 f"reference configuration, first: {M.show(terms[i])[:300]}",
-                          "config": label, "term": M.to_json(terms[i])})
+            if i >= len(terms):
+                st.violation({"why": f"configuration {label}: the outcome of evaluating / differentiating x + x + ... + x (1200 terms, "
+                                     f"deeper than the recursion limit) differs from the reference configuration", "config": label})
+            else:
+                st.violation({"why": f"configuration {label}: {len(bad)} battery items give different results than the "
+                                     f"reference configuration, first: {M.show(terms[i])[:300]}",
+                              "config": label, "term": M.to_json(terms[i])})
 
     # (a) all k! controlled iteration orders x coordinate orders x creation orders (forked workers)
     orders = list(itertools.permutations(NAMES))
